@@ -160,6 +160,9 @@ def zip_item(t):
     return nx, t[2], srcs[t[2]]
 
 
+TAIL_FROM_OTHER = set()
+
+
 def tail_find(ctx, t):
     """(find-call, param) if t is the first non-zero component of param.version[min(len l, len r)..]: the Some payload of
     .iter().find(|x| x != 0) over that tail"""
@@ -186,8 +189,13 @@ def tail_find_call(ctx, f):
         return None
     side_ = _version_of(call_args(sl)[0])
     rg = canon_range(call_args(sl)[0], call_args(sl)[1])
-    if side_ is None or rg is None or not is_min_len(rg[0]) or not (rg[1] == LEN or vlen(rg[1], side_)):
+    # the tail starts where the common prefix ends: at min(len l, len r), or at the other side's length (that is the minimum on the length
+    # branch where this side is the longer one -- the branch is checked where the form is judged, TAIL_FROM_OTHER remembers which were seen)
+    other_len = side_ is not None and rg is not None and vlen(rg[0], 4 - side_)
+    if side_ is None or rg is None or not (is_min_len(rg[0]) or other_len) or not (rg[1] == LEN or vlen(rg[1], side_)):
         return None
+    if other_len:
+        TAIL_FROM_OTHER.add(f)
     clo = strip_refs(call_args(f)[1])
     if not (isinstance(clo, tuple) and clo and clo[0] == "agg" and clo[1] == "closure"):
         return None
@@ -375,12 +383,17 @@ def run(ctx):
                         exhausted += 1
                 br = [c for c in p.conds() if c.term[0] == "discr" and is_call(c.term[1], "::cmp")]
                 unequal_len = bool(br) and br[-1].fact in (("eq", 255), ("eq", 1))
-                # common-prefix loop, plus the zero-padding loop when the lengths differ
-                ok5 = ok5 and exhausted >= (2 if unequal_len else 1)
                 # searches for a non-zero component in a tail (`.find(|x| x != 0)`): all came back empty, and if that is how the tails are examined, both were
                 finds = [c for c in p.conds() if c.term[0] == "discr" and is_call(strip_refs(c.term[1]), "Iterator>::find")]
-                if finds:
-                    none = [tail_find_call(ctx, strip_refs(c.term[1])) for c in finds if c.fact == ("eq", 0) or (c.fact[0] == "ne" and 1 in c.fact[1])]
+                none = [tail_find_call(ctx, strip_refs(c.term[1])) for c in finds if c.fact == ("eq", 0) or (c.fact[0] == "ne" and 1 in c.fact[1])]
+                branchwise = bool(finds) and all(strip_refs(c.term[1]) in TAIL_FROM_OTHER for c in finds)
+                # common-prefix loop, plus the zero-padding loop (or the search of the longer side's tail) when the lengths differ
+                ok5 = ok5 and exhausted + (len(none) if branchwise else 0) >= (2 if unequal_len else 1)
+                if finds and branchwise:
+                    # the tail is cut at the other side's length inside the length branch: exactly the longer side's tail was searched
+                    ok5 = ok5 and len(none) == len(finds) and unequal_len and none == [3 if br[-1].fact == ("eq", 255) else 1] \
+                        and vlen(call_args(br[-1].term[1])[0], 1) and vlen(call_args(br[-1].term[1])[1], 3)
+                elif finds:
                     ok5 = ok5 and len(none) == len(finds) and set(none) == {1, 3}
             ctx.check(ok5, "CMP-5", CMP, inst + "@" + ("tail" if bb == last_bb else "branch"), "revision compared last, after all components tied",
                       "the revision comparison is reachable before every component loop on its path was exhausted (or is inside a loop)", body.span_of(bb))
@@ -441,7 +454,7 @@ def run(ctx):
                 okg = found          # found by `x != 0`: the guard `x != 0` is the search predicate
                 okrng = prefix_done and tf[1] == (3 if sa == "zero" else 1)
                 rdesc = "first non-zero of version[min(len l, len r)..]"
-                iter_tail = True
+                iter_tail = tf[0] not in TAIL_FROM_OTHER     # a tail cut at the other side's length is right only on the matching length branch (below)
             # length branch for the padding loops
             okbr = True
             if (sa == "zero" or sb == "zero") and not (okrng and rdesc.startswith("0..max")) and not iter_tail:
